@@ -201,15 +201,15 @@ PROPS = {
     },
     "C12": {
         "module": "MiniMcmcVerif.Props.C12Invariance",
-        "obligations": [ST + n for n in ["centre_affine", "autocovBF_affine", "essWith_affine", "splitRhatSqEss_affine", "npadGo_spec", "npad_spec", "sum_range_zero_tail", "zipWith_drop_eq", "circ_eq_linear", "autocovCirc_eq_autocovBF", "autocov_eq_autocovBF",
+        "obligations": [ST + n for n in ["centre_affine", "autocovBF_affine", "essWith_affine", "splitRhatSqEss_affine", "rhoOf_perm", "essWith_chain_perm", "lagsum_reverse", "autocovBF_reverse", "essWith_time_reversal", "npadGo_spec", "npad_spec", "sum_range_zero_tail", "zipWith_drop_eq", "circ_eq_linear", "autocovCirc_eq_autocovBF", "autocov_eq_autocovBF",
                                          "geyerSeq_eq", "geyer_eq_sum", "geyerSeq_pos_antitone", "tau_eq", "ess_path_independent"]],
         "rel32": 6e-3, "abs32": 4e-4,
         "level_text": "Theorems: the FFT padding length is a power of two >= 2n-1; for such a length the circular correlation of the zero-padded centred sequence equals the linear one at every lag < n, so "
                       "autocov_fft (given the DFT correlation identity) and autocov_bf are the same function and the 100-row switch cannot change ESS; the accumulated sequence is the running minimum of the "
                       "maximal positive prefix of the pair sums (Geyer), positive and non-increasing; tau = -1 + 2 * its sum and ESS = M*N/tau. Tied to stats.rs by comparing both private autocovariance paths "
                       "(hooks) and split_rhat_mean_ess across the switch, on original, time-reversed and chain-permuted data, with the model at Float; cases where the f32 mirror truncates elsewhere are indeterminate.",
-        "level_note": "Trusted: rustfft computes the DFT (correlation identity assumed, zero-padding argument proved). Affine invariance of (R-hat^2, ESS) through the split is a theorem (splitRhatSqEss_affine); invariance under chain permutation and time reversal is exercised through model "
-                      "cases on transformed data but not stated as theorems; 'about N for iid, N(1-phi)/(1+phi) for AR(1)' is statistical: the measured ratio is reported in the evidence notes, not decided.",
+        "level_note": "Trusted: rustfft computes the DFT (correlation identity assumed, zero-padding argument proved). Affine invariance of (R-hat^2, ESS) through the split is a theorem (splitRhatSqEss_affine); tau and ESS are invariant under permutation of the half-chains (essWith_chain_perm) and under time reversal of every half-chain (autocovBF_reverse, essWith_time_reversal), given the same W and var+; "
+                      "both are also exercised through model cases on transformed data; 'about N for iid, N(1-phi)/(1+phi) for AR(1)' is statistical: the measured ratio is reported in the evidence notes, not decided.",
         "rule": "columns of length 2-5000 (powers of two +-1 favoured) for the two autocovariance paths; arrays with 1-16 chains x 4-5000 draws x 1-3 parameters for ESS incl. half-lengths 99-102 around the "
                 "switch; a third time-reversed, a third chain-permuted; AR(1) coefficients in (-0.9, 0.99); distinct by (chains, draws, kind, first value)",
         "trusted": ["rustfft computes the discrete Fourier transform", "floating-point rounding is not modelled (relative tolerance 6e-3, autocovariances compared after division by lag 0 with absolute tolerance 4e-4)"],
